@@ -9,7 +9,7 @@ K2: Parquet files with controlled statistics from the extracted spec writer (`pq
 K3: the REAL GlobHandle over in-memory directory trees (gv_prune glob) vs the extracted walk (exact order) and
     vs the declarative meaning of the pattern; glob() / read_csv('pattern') over directory trees on disk.
 K4: read_csv([..]) / read_parquet([..]) / glob forms vs the union of the single files, partitions 1..8."""
-import fnmatch, json, os, shutil, time
+import fnmatch, json, os, shutil, struct, time
 from . import common
 
 PID = "C11"
@@ -44,7 +44,7 @@ def rel(path):
 
 # ---------------------------------------------------------------- K1: should_prune
 def k1_cases(rng, tier):
-    n = 4000 if tier == "quick" else 40000
+    n = 30000 if tier == "quick" else 200000
     cases = []
     for i in range(n):
         lt = rng.choice(list(ITYPES))
@@ -213,11 +213,12 @@ def glob_model_line(node, segments, oracle):
 
 
 def parse_glob_model(out, names, root_dir):
-    impl_s, spec_s = out[len("impl:"):].split("; spec:")
+    impl_s, rest = out[len("impl:"):].split("; spec:")
+    spec_s, stack_s = rest.split("; stack:")
 
     def paths(s):
         return [root_dir + "/" + "/".join(names[int(x)] for x in p.split("/")[0:]) for p in s.split()]
-    return paths(impl_s), paths(spec_s)
+    return paths(impl_s), paths(spec_s), (None if stack_s.strip() == "FUEL" else paths(stack_s))
 
 
 def simple_seg(s):
@@ -247,13 +248,16 @@ def glob_eval(cases, real, gmodel):
         if not o.startswith("impl:"):
             res[i] = {"status": "model-error", "model": o, "real": r}
             continue
-        impl, spec = parse_glob_model(o, names_of[i], r["root"])
+        impl, spec, stack = parse_glob_model(o, names_of[i], r["root"])
+        if stack != impl:
+            res[i] = {"status": "model-error", "model": o, "real": r, "why": "expand_stack differs from expand"}
+            continue
         res[i] = {"status": "ok", "impl": impl, "spec": spec, "real": r["paths"], "segments": r["segments"], "root": r["root"]}
     return res
 
 
 def stage_glob_mem(ctx, rng, gvprune, gmodel, known_ids):
-    n = 1500 if ctx["tier"] == "quick" else 15000
+    n = 12000 if ctx["tier"] == "quick" else 60000
     cases = []
     for i in range(n):
         tree = gen_tree(rng, "r", 1 + rng.below(4))
@@ -278,7 +282,11 @@ def stage_glob_mem(ctx, rng, gvprune, gmodel, known_ids):
         if c["pattern"].startswith("/"):
             st["abs_patterns"] += 1
             if not e["root"].startswith("/"):
-                known.setdefault("glob-absolute-path", {"n": 0, "example": "glob_segments('%s').root_dir = '%s'" % (c["pattern"], e["root"])})["n"] += 1
+                if "glob-absolute-path" in known_ids:
+                    known.setdefault("glob-absolute-path", {"n": 0, "example": "glob_segments('%s').root_dir = '%s'" % (c["pattern"], e["root"])})["n"] += 1
+                elif not any(v["what"].startswith("an absolute glob pattern") for v in viol):
+                    viol.append({"what": "an absolute glob pattern loses its leading '/': it is resolved against the working directory",
+                                 "replay": {"gv_prune_case": c, "root_dir": e["root"]}, "no_input": False})
         same_order = e["real"] == e["impl"] if c["chunk"] == 0 else sorted(e["real"]) == sorted(e["impl"])
         if not same_order:
             mism.append({"case": c, "real": e["real"], "model": e["impl"]})
@@ -338,7 +346,7 @@ def sql_fail(res):
 
 
 def stage_glob_disk(ctx, rng, gverif, gvprune, gmodel, known_ids):
-    ntrees = 4 if ctx["tier"] == "quick" else 25
+    ntrees = 16 if ctx["tier"] == "quick" else 80
     base = os.path.join(WDIR, "gt")
     shutil.rmtree(base, ignore_errors=True)
     mem_cases, plan = [], []
@@ -501,6 +509,9 @@ def pq_col_clause(col, rgs):
     if t == "utf8":
         return '(col (name "%s") (type bytes) (conv 0) (optional 0) (stats new nulls unsigned) (vals %s))' % (
             col["name"], " ".join("x" + v.encode().hex() for v in col["vals"]))
+    if t == "f64":
+        return '(col (name "%s") (type f64) (optional 0) (stats new nulls) (vals %s))' % (
+            col["name"], " ".join(str(struct.unpack("<Q", struct.pack("<d", v))[0]) for v in col["vals"]))
     if t == "date":
         return '(col (name "%s") (type i32) (conv 6) (optional 0) (stats new nulls) (vals %s))' % (
             col["name"], " ".join(str(v & 0xffffffff) for v in col["vals"]))
@@ -537,6 +548,8 @@ def cell_of(col, v):
         return "S" + v
     if col["t"] == "date":
         return "T%d" % v
+    if col["t"] == "f64":
+        return "F%x" % struct.unpack("<Q", struct.pack("<d", v))[0]
     return "I%d" % v
 
 
@@ -545,6 +558,8 @@ def lit(col, v, typed):
         return "NULL"
     if col["t"] in ITYPES:
         return "cast('%d' as %s)" % (v, ITYPES[col["t"]][4]) if typed else str(v)
+    if col["t"] == "f64":
+        return "cast('%r' as double)" % v
     if col["t"] == "date":
         import datetime
         return "date '%s'" % (datetime.date(1970, 1, 1) + datetime.timedelta(days=v)).isoformat()
@@ -571,6 +586,8 @@ def gen_pq_case(rng, idx, directed=None):
             cols.append(gen_pq_col(rng, "c%d" % ci, rng.choice(list(ITYPES)), n, rgs))
         if rng.chance(35):
             cols.append({"name": "s", "t": "utf8", "optional": False, "vals": [rng.choice(["a", "b", "zz"]) for _ in range(n)], "dom": ["a", "b", "q"], "pool": ["a", "b", "q"]})
+        if rng.chance(25):
+            cols.append({"name": "x", "t": "f64", "optional": False, "vals": [rng.choice([0.5, -1.5, 2.0]) for _ in range(n)], "dom": [0.5, -1.5, 7.25], "pool": [0.5, 2.0, 7.25]})
         if rng.chance(25):
             cols.append({"name": "d", "t": "date", "optional": False, "vals": [rng.choice([0, 3, 20000]) for _ in range(n)], "dom": [0, 3, 5], "pool": [0, 3, 5]})
     path = os.path.join(WDIR, "p%d.parquet" % idx)
@@ -668,7 +685,7 @@ def parse_pushed(explain_rows):
 
 
 def stage_pq(ctx, rng, gverif, gmodel, known_ids):
-    nfiles = 40 if ctx["tier"] == "quick" else 400
+    nfiles = 300 if ctx["tier"] == "quick" else 2000
     os.makedirs(WDIR, exist_ok=True)
     cases = [gen_pq_case(rng, 0, "w29")] + [gen_pq_case(rng, i) for i in range(1, nfiles)]
     gpq = common.build_ocaml("pq")
@@ -790,7 +807,7 @@ def stage_pq(ctx, rng, gverif, gmodel, known_ids):
 
 
 # ---------------------------------------------------------------- K4: multi-file scans
-def stage_multi(ctx, rng, gverif, known_ids):
+def stage_multi(ctx, rng, gverif, gmodel, known_ids):
     d = os.path.join(WDIR, "mf")
     shutil.rmtree(d, ignore_errors=True)
     os.makedirs(d)
@@ -809,7 +826,7 @@ def stage_multi(ctx, rng, gverif, known_ids):
             q, rng.choice([1, 2, 3]), " ".join(str(i * 100 + j) for j in range(n)), " ".join(str(v) for v in vals)))
     gpq = common.build_ocaml("pq")
     common.run_model(gpq, "write", specs, timeout=300)
-    nlists = 10 if ctx["tier"] == "quick" else 80
+    nlists = 40 if ctx["tier"] == "quick" else 250
     send, plan = [], []
     for li in range(nlists):
         k = 1 + rng.below(6)
@@ -861,7 +878,9 @@ def stage_multi(ctx, rng, gverif, known_ids):
                                         "want_rows": len(want), "got_rows": None if got is None else len(got),
                                         "first_missing": [x for x in want if got is not None and x not in got][:3]}, "no_input": False})
                 break
-    return {"stats": st, "viol": viol, "distinct": len(distinct), "sample": {"sql": send[0]["stmts"][1], "files": len(plan[0][1])}}
+    deal = common.run_model(gmodel, "run", ["(deal 4 6)"])[0]
+    return {"stats": st, "viol": viol, "distinct": len(distinct),
+            "sample": {"sql": send[0]["stmts"][1], "files": len(plan[0][1]), "model_deal_6_files_4_partitions(skip/step_by ; idx%p)": deal}}
 
 
 KNOWN_TEXT = {
@@ -878,6 +897,9 @@ def run(ctx):
     out = {"violations": [], "known": [], "assumptions": []}
     kf = common.known_findings()
     known_ids = set(k["id"] for k in kf.get("known", []) if k.get("property") == PID)
+    global WDIR
+    WDIR = os.path.join(common.WORK, "prune", "%s-%d" % (ctx["tier"], ctx["seed"]))   # one directory per (tier, seed)
+    shutil.rmtree(WDIR, ignore_errors=True)
     os.makedirs(WDIR, exist_ok=True)
     gverif, _ = common.build_harness()
     gvprune, _ = common.build_harness(bin="gv_prune")
@@ -892,7 +914,7 @@ def run(ctx):
     k3 = stage_glob_mem(ctx, rng, gvprune, gmodel, known_ids)
     k3b = stage_glob_disk(ctx, rng, gverif, gvprune, gmodel, known_ids)
     k2 = stage_pq(ctx, rng, gverif, gmodel, known_ids)
-    k4 = stage_multi(ctx, rng, gverif, known_ids)
+    k4 = stage_multi(ctx, rng, gverif, gmodel, known_ids)
     prop_viol = k3["viol"] + k3b["viol"] + k2["viol"] + k4["viol"]
     out["violations"] += prop_viol
     merged = {}
